@@ -22,15 +22,27 @@ val compOpp : comparison -> comparison
 
 val add : nat -> nat -> nat
 
+val mul : nat -> nat -> nat
+
 val sub : nat -> nat -> nat
 
 module Nat :
  sig
+  val sub : nat -> nat -> nat
+
   val eqb : nat -> nat -> bool
 
   val leb : nat -> nat -> bool
 
   val ltb : nat -> nat -> bool
+
+  val max : nat -> nat -> nat
+
+  val divmod : nat -> nat -> nat -> nat -> nat * nat
+
+  val div : nat -> nat -> nat
+
+  val modulo : nat -> nat -> nat
  end
 
 type positive =
@@ -242,6 +254,12 @@ val be_dec : bytes -> n
 
 val be_enc : nat -> n -> bytes
 
+val xor_pad : bytes -> bytes -> bytes
+
+val pad_to : nat -> bytes -> bytes
+
+val take_until_nul : bytes -> bytes
+
 val zbyte : z -> n
 
 type cmpop =
@@ -284,6 +302,8 @@ val e_pkt_big : n
 
 val e_unknown_code : n
 
+val e_invalid : n
+
 val remove_at : nat -> 'a1 list -> 'a1 list
 
 val update_at : nat -> 'a1 -> 'a1 list -> 'a1 list
@@ -298,6 +318,10 @@ val sW_IsAuthenticRequest : z list list list
 
 val g_IsAuthenticResponse : guard list
 
+val g_NewTunnelPassword : guard list
+
+val g_NewUserPassword : guard list
+
 val sW_Packet_Encode : z list list list
 
 val g_Packet_MarshalBinary : guard list
@@ -305,6 +329,10 @@ val g_Packet_MarshalBinary : guard list
 val g_Parse : guard list
 
 val g_ParseAttributes : guard list
+
+val g_TunnelPassword : guard list
+
+val g_UserPassword : guard list
 
 type avp = { atype : z; aval : bytes }
 
@@ -361,6 +389,39 @@ val is_authentic_request : (bytes -> bytes) -> bytes -> bytes -> bool
 val response : packet -> z -> packet
 
 val new_packet : z -> bytes -> bytes -> packet res
+
+val slice : bytes -> nat -> nat -> bytes res
+
+val xor_at : bytes -> nat -> bytes -> bytes
+
+val nup_loop :
+  (bytes -> bytes) -> nat -> bytes -> bytes -> bytes -> nat -> bytes res
+
+val new_user_password :
+  (bytes -> bytes) -> bytes -> bytes -> bytes -> bytes res
+
+val up_loop :
+  (bytes -> bytes) -> nat -> bytes -> bytes -> bytes -> nat -> bytes res
+
+val user_password : (bytes -> bytes) -> bytes -> bytes -> bytes -> bytes res
+
+val xor_block : bytes -> nat -> bytes -> bytes res
+
+val ntp_loop :
+  (bytes -> bytes) -> nat -> nat -> bytes -> bytes -> bytes -> bytes -> bytes
+  res
+
+val salt_msb_set : n -> bool
+
+val new_tunnel_password :
+  (bytes -> bytes) -> bytes -> bytes -> bytes -> bytes -> bytes res
+
+val tp_loop :
+  (bytes -> bytes) -> nat -> nat -> bytes -> bytes -> bytes -> bytes -> bytes
+  -> bytes res
+
+val tunnel_password :
+  (bytes -> bytes) -> bytes -> bytes -> bytes -> (bytes * bytes) res
 
 val is_key : z -> avp -> bool
 
@@ -422,6 +483,39 @@ val spec_is_authentic_response :
   (bytes -> bytes) -> bytes -> bytes -> bytes -> bool
 
 val spec_is_authentic_request : (bytes -> bytes) -> bytes -> bytes -> bool
+
+val rfc_up_enc : (bytes -> bytes) -> nat -> bytes -> bytes -> bytes -> bytes
+
+val up_blocks : nat -> nat
+
+val rfc_up_encrypt : (bytes -> bytes) -> bytes -> bytes -> bytes -> bytes
+
+val rfc_up_dec : (bytes -> bytes) -> nat -> bytes -> bytes -> bytes -> bytes
+
+val rfc_up_decrypt : (bytes -> bytes) -> bytes -> bytes -> bytes -> bytes
+
+val spec_new_user_password :
+  (bytes -> bytes) -> bytes -> bytes -> bytes -> bytes res
+
+val spec_user_password :
+  (bytes -> bytes) -> bytes -> bytes -> bytes -> bytes res
+
+val tp_blocks : nat -> nat
+
+val tp_plain : bytes -> bytes
+
+val rfc_tp_encrypt :
+  (bytes -> bytes) -> bytes -> bytes -> bytes -> bytes -> bytes
+
+val salt_ok : bytes -> bool
+
+val tp_max_password : nat
+
+val spec_new_tunnel_password :
+  (bytes -> bytes) -> bytes -> bytes -> bytes -> bytes -> bytes res
+
+val spec_tunnel_password :
+  (bytes -> bytes) -> bytes -> bytes -> bytes -> (bytes * bytes) res
 
 val md5_mask32 : n
 
@@ -529,5 +623,13 @@ val z1 : z list -> z
 val tbool : bool -> tok list
 
 val dispatch_c01 : bytes -> bytes list -> z list -> tok list option
+
+val b4 : bytes list -> bytes
+
+val t_bytes : bytes -> tok list
+
+val t_pair : (bytes * bytes) -> tok list
+
+val dispatch_pw : bytes -> bytes list -> z list -> tok list option
 
 val dispatch : bytes -> bytes list -> z list -> tok list
